@@ -254,6 +254,15 @@ impl CachedFile {
 fn collect_cached_files(cache_dir: &Path) -> Result<(Vec<CachedFile>, u64)> {
     let mut cache = Vec::new();
     let mut count = 0;
+    // Joining a file name to the empty path yields a path relative
+    // to the current directory, and that's where reads and writes
+    // go.  However, `read_dir("")` fails with ENOENT, which callers
+    // treat as "nothing to prune": list "." instead.
+    let cache_dir = if cache_dir.as_os_str().is_empty() {
+        Path::new(".")
+    } else {
+        cache_dir
+    };
     for maybe_entry in std::fs::read_dir(cache_dir)? {
         count += 1;
         if let Ok(entry) = maybe_entry {
